@@ -1755,6 +1755,10 @@ impl<'a> UserModel<'a> {
         let [row_start, column_start, row_end, column_end] = range;
         let last_row = row_end.max(row_start + styles_height - 1);
         let last_column = column_end.max(column_start + styles_width - 1);
+        // The pasted area must be inside the grid: check it before styling any cell
+        if !is_valid_row(last_row) || !is_valid_column_number(last_column) {
+            return Err("Incorrect row or column".to_string());
+        }
 
         let mut diff_list = Vec::new();
         for row in row_start..=last_row {
